@@ -105,6 +105,22 @@ def int_variable(code, access, spelling, doc_type):
     sx.reach("signed" if signed else "unsigned")
 
 
+def nodeid_literal(form, literal):
+    """$NODEID forms with concrete digit strings (the token abstraction hides character-level slips)"""
+    x = int(literal, 0)
+    nid = sx.fresh_int("nid", 1, 127)
+    text_val = ("$NODEID+%s" % literal) if form == "prefix" else ("%s+$NODEID" % literal)
+    e = Entry("COB-ID literal", 0x1400, 1, 0x07, "rw", default_text=text_val, relative=True)
+    pv = Entry("COB-ID value", 0x1400, 2, 0x07, "rw", default_text="0", default=0, value_text=text_val)
+    d = _base_doc()
+    d.record("RPDO 1", 0x1400, [Entry("n", 0x1400, 0, 0x05, "ro", default=2, default_text="2"), e, pv])
+    od = _import(d.text(), ".dcf", node_id=nid)
+    sx.prove(_is(od[0x1400][1].default, x + nid), "$NODEID + literal offset resolved", "C08/nodeid-literal/default")
+    sx.prove(_is(od[0x1400][2].value, x + nid), "$NODEID + literal offset resolved (ParameterValue)",
+             "C08/nodeid-literal/value")
+    sx.reach("nodeid-literal")
+
+
 def nodeid(form, source, spaces, late=0):
     """$NODEID-relative values resolved against the node id in force (late: the commissioning section
     comes after the object sections in the file)"""
@@ -168,6 +184,8 @@ def structure(sub_spelling):
     d.variable(octs)
     real = Entry("Gain", 0x2303, 0, 0x08, "rw", default=1.5, default_text="1.5")
     d.variable(real)
+    dotted = Entry("Max. motor speed", 0x2304, 0, 0x07, "rw", default=v1, default_text=num(v1))
+    d.variable(dotted)
     d.section("Comments", ["Lines=2", "Line1=first line", "Line2=second = line"])
     od = _import(d.text())
     tag = "C08/structure/" + sub_spelling
@@ -190,6 +208,9 @@ def structure(sub_spelling):
     _check_var(od[0x2303], real, tag + "/real")
     sx.prove(od["A record"] is rec and od["A record.Member A"] is rec[1] and od["A record"]["Member C"] is rec[3]
              and od[0x2100][1] is rec["Member A"], "lookup by index, name and Parent.Child", tag + "/lookup")
+    _check_var(od[0x2304], dotted, tag + "/dotted")
+    sx.prove(od["Max. motor speed"] is od[0x2304] and "Max. motor speed" in od, "top-level name containing a full stop",
+             tag + "/dotted-lookup")
     sx.prove(od.comments == "first line\nsecond = line", "comments", tag + "/comments")
     sx.reach("structure")
 
@@ -262,6 +283,9 @@ def jobs(tier):
                 out.append(dict(func="nodeid", params=dict(form=form, source=source, spaces=spaces)))
             if source in ("file", "both"):
                 out.append(dict(func="nodeid", params=dict(form=form, source=source, spaces=0, late=1)))
+    for form in ("prefix", "suffix"):
+        for lit in ("0x180", "0x18D", "0xE", "0xDE", "0x7ED", "0x1d", "399", "0", "0x200", "0xABCDE"):
+            out.append(dict(func="nodeid_literal", params=dict(form=form, literal=lit)))
     for sp in ("sub", "Sub"):
         out.append(dict(func="structure", params=dict(sub_spelling=sp)))
     for wn in (0, 1):
@@ -292,6 +316,6 @@ META = dict(
     assumptions=["writer follows CiA 306 section/keyword layout"],
     stubs=["int()/hex()/format() with number tokens", "dict displays -> SymDict", "logging"],
     required_reach=["int-dec", "int-hex", "signed", "unsigned", "nodeid-arg", "nodeid-file", "nodeid-both",
-                    "nodeid-none", "structure", "compact", "device-info"],
+                    "nodeid-none", "nodeid-literal", "structure", "compact", "device-info"],
     limits=dict(quick=dict(), thorough=dict()),
 )
